@@ -97,12 +97,21 @@ def c_maxabs(arrays, kind="maxabs"):
     return _mk("maxabs", [arrays], f"maxabs {C.enc([C.flat(a) for a in arrays])}", kind)
 
 
+def c_maxabs_special(arrays, kind="maxabs-nonfinite"):
+    """Arrays holding NaN (ignored, the default) and infinities (they ARE the largest absolute value): decided by the oracle, the model's
+    numbers are rationals."""
+    return _mk("maxabs_special", [arrays], "check_region [ 0 1 0 1 ]", kind)
+
+
 def c_project(reg, pk, pp, kind="project_region"):
     return _mk("project", [list(reg), pk, pp], f"project_region {C.enc(list(reg))} {pk} {C.enc(pp)}", kind)
 
 
 def corpus():
-    cs = [c_check((0, 1, 0, 1)), c_check((1, 1, 2, 2), "check-degenerate"), c_check((2, 1, 0, 1), "check-invalid"),
+    inf, nan = float("inf"), float("nan")
+    cs = [c_maxabs_special([[1.0, -3.5, nan], [2.0, 0.25]]), c_maxabs_special([[1.0, inf, -2.0]]), c_maxabs_special([[-inf, 5.0], [nan, 7.0]]),
+          c_maxabs_special([[1e308, -1.5e308, nan]]), c_maxabs_special([[3.0, nan], [-inf, nan, 2.0], [0.5]]),
+          c_check((0, 1, 0, 1)), c_check((1, 1, 2, 2), "check-degenerate"), c_check((2, 1, 0, 1), "check-invalid"),
           c_check((0, 1, 3, 2), "check-invalid"), c_check((0, 1, 0), "check-invalid"), c_check((0, 1, 0, 1, 5), "check-invalid"),
           # a region has exactly four values, whatever the others look like (a 3-D box, a single interval, two boxes)
           c_check((0, 1), "check-invalid-length"), c_check((0, 1, 0, 1, -5, 5), "check-invalid-length"),
@@ -282,6 +291,9 @@ def impl(case):
                 arrs[i] = x.astype(["uint8", "uint16", "int64"][(i + fl.size) % 3] if np.all(fl >= 0) else ["int16", "int64"][i % 2])
         r = C.call(vd.maxabs, *arrs)
         return r if C.is_err(r) else float(r)
+    if fn == "maxabs_special":
+        r = C.call(vd.maxabs, *[np.array(x) for x in a[0]])
+        return r if C.is_err(r) else ["special", float(r)]
     if fn == "nodes":
         reg, shape, spacing, pixel, seed = a
 
@@ -308,7 +320,7 @@ def impl(case):
 
 
 def compare(case, io, mo):
-    if case["fn"] == "nodes":
+    if case["fn"] in ("nodes", "maxabs_special"):
         return "ok"        # decided by the oracle on the implementation
     if case["fn"] == "project":
         return C.std_compare(io, mo, tol=1e-11)
@@ -384,6 +396,13 @@ def oracle(case, io):
             return "maxabs failed: " + io[1]
         exp = max(abs(x) for x in C.flat(a[0]))
         return None if io == exp else f"maxabs {io} != largest absolute value {exp}"
+    if fn == "maxabs_special":
+        if C.is_err(io):
+            return "maxabs failed: " + io[1]
+        import math
+        vals = [abs(x) for x in C.flat(a[0]) if not (isinstance(x, float) and math.isnan(x))]
+        exp = max(vals)
+        return None if io[1] == exp else f"maxabs {io[1]} != largest absolute value {exp} (NaN ignored, infinities count)"
     if fn == "project":
         if C.is_err(io):
             return "project_region failed: " + io[1]
